@@ -91,7 +91,7 @@ func c18StreamDecoders(c *Ctx) []decoder {
 	// a scripted GM server that selects an ECDHE-SM2 suite and sends an ECDHE-style ServerKeyExchange (C15's script)
 	{
 		t := c15Target{name: "gm-client", peerIsClient: false}
-		res := runScript(t, deviation{ref.StServerKeyExchange, "ecdhe-ske", 7, 0}, pki, r.U64(), gmC(), ref.SuiteECCSM4CBC)
+		res := runScript(t, deviation{ref.StServerKeyExchange, "ecdhe-ske", 7, 0, nil}, pki, r.U64(), gmC(), ref.SuiteECCSM4CBC)
 		ecdheFlight = streamOf(res.wire, false)
 	}
 	run := func(client bool, cfg func() *gmtls.Config) func(b []byte) {
